@@ -4,39 +4,25 @@ import z3
 from .theory import *
 
 
-_ite_memo = {}
-
-
 def has_ite(t) -> bool:
-    """does the term contain a boolean connective / ite (not allowed inside quantifier patterns)?"""
-    key = t.get_id()
-    r = _ite_memo.get(key)
-    if r is not None:
-        return r
-    stack, seen, found = [t], set(), False
+    """does the term contain a boolean connective / ite / comparison (not allowed inside quantifier patterns)?
+    (no cross-call memo: z3 AST ids are recycled after garbage collection)"""
+    stack, seen = [t], set()
     while stack:
         x = stack.pop()
         i = x.get_id()
         if i in seen:
             continue
         seen.add(i)
-        if i in _ite_memo:
-            if _ite_memo[i]:
-                found = True
-                break
-            continue
+        if z3.is_quantifier(x):
+            return True
         if z3.is_app(x):
             k = x.decl().kind()
             if k in (z3.Z3_OP_ITE, z3.Z3_OP_NOT, z3.Z3_OP_AND, z3.Z3_OP_OR, z3.Z3_OP_IMPLIES, z3.Z3_OP_EQ, z3.Z3_OP_LE,
-                     z3.Z3_OP_GE, z3.Z3_OP_LT, z3.Z3_OP_GT, z3.Z3_OP_DISTINCT) or z3.is_quantifier(x):
-                found = True
-                break
+                     z3.Z3_OP_GE, z3.Z3_OP_LT, z3.Z3_OP_GT, z3.Z3_OP_DISTINCT):
+                return True
             stack.extend(x.children())
-        elif z3.is_quantifier(x):
-            found = True
-            break
-    _ite_memo[key] = found
-    return found
+    return False
 
 
 class Obligation:
